@@ -163,6 +163,19 @@ Theorem c14_auto_patch_undone_partial : forall (f : fs) (root : str) (ops : list
 Proof. exact auto_patch_undone_b. Qed.
 Print Assumptions c14_auto_patch_undone_partial.
 
+(* the same for a patch TEXT: every path the parser accepts is relative and free of `..` (parse_rel_path), so the
+   hypothesis about the paths is discharged: whatever text apply_patch accepts and applies *)
+Theorem c14_auto_patch_text_undone_partial : forall (f : fs) (root : str) (text : list N) (g : fs) (c : list (list N)) (ck : list entry),
+  is_absolute root = true -> tree_b f = true -> nonul_b f = true ->
+  forall ops, Patch.parse_patch text = Some ops ->
+  (forall p q, In p (Patch.affected_paths ops) -> In q (Patch.affected_paths ops) ->
+     (exists s, comps q = comps p ++ s /\ comps p <> [] /\ s <> []) -> lookup f (comps p) = Some Dir) ->
+  create f root (Patch.affected_paths ops) = Ok ck ->
+  Patch.apply_patch true [] f text = Patch.Applied g c ->
+  exists f2, rewind g ck = (f2, None) /\ forall q, file_at f2 q = file_at f q.
+Proof. exact auto_patch_text_undone. Qed.
+Print Assumptions c14_auto_patch_text_undone_partial.
+
 (* the full statement (no hypothesis on nesting) is FALSE of the model and of the code - OPEN finding S10j *)
 Definition c14_auto_patch_undone_full : Prop :=
   forall (f : fs) (root : str) (ops : list Patch.op) (g : fs) (c : list (list N)) (ck : list entry),
